@@ -182,13 +182,14 @@ Proof.
 Qed.
 
 (* expression mode *)
-Lemma lit_zero_expr : forall a ex prev c r v e, (ex <> 0)%Z ->
-  lit None a ex ex prev false (c :: r) = (v, O, e) -> c = c_rbrace \/ c = c_dollar.
+Lemma lit_zero_expr : forall a es ex prev c r v e, (es <> 0)%Z -> (ex <> 0)%Z ->
+  lit None a es ex prev false (c :: r) = (v, O, e) -> c = c_rbrace \/ c = c_dollar.
 Proof.
-  intros a ex prev c r v e Hex H. cbn [lit] in H.
+  intros a es ex prev c r v e Hes Hex H. cbn [lit] in H.
   destruct (c =? c_bslash).
-  { destruct (lit None a ex ex (Some c) true r) as [[v1 n1] e1]. inversion H. }
-  assert (T : truthy ex = true) by (unfold truthy; lia). rewrite T in H.
+  { destruct (lit None a es ex (Some c) true r) as [[v1 n1] e1]. inversion H. }
+  assert (T : truthy ex = true) by (unfold truthy; lia).
+  assert (Ts : truthy es = true) by (unfold truthy; lia). rewrite T, ?Ts in H.
   cbn [negb andb] in H. rewrite andb_false_r in H. cbn [andb orb] in H.
   destruct (c =? c_dollar) eqn:E2. { right. apply N.eqb_eq. exact E2. }
   cbn [orb] in H.
@@ -196,6 +197,7 @@ Proof.
   { unfold is_allowed_operator in E3. destruct (operator_type c); [|discriminate].
     cbn [cquote cexpr] in E3. rewrite T in E3. discriminate. }
   destruct (c =? c_lbrace). { exfalso. eapply take_nonzero. exact H. }
+  rewrite ?Ts in H.
   destruct (c =? c_rbrace) eqn:E4. { left. apply N.eqb_eq. exact E4. }
   exfalso. eapply take_nonzero. exact H.
 Qed.
@@ -203,12 +205,13 @@ Qed.
 (* plain mode: a quote character or an opening brace is only left to the bracket/quote consumers when
    the expression counter is 0 *)
 Lemma lit_zero_plain : forall a ex prev c r v e,
-  lit None a ex ex prev false (c :: r) = (v, O, e) ->
+  lit None a (Z.min ex 1) ex prev false (c :: r) = (v, O, e) ->
   (is_quote c = true \/ c = c_lbrace) -> ex = 0%Z.
 Proof.
   intros a ex prev c r v e H Hc.
   destruct (Z.eq_dec ex 0) as [|Hex]; [assumption|exfalso].
-  destruct (lit_zero_expr a ex prev c r v e Hex H) as [->| ->].
+  assert (Hes : (Z.min ex 1 <> 0)%Z) by lia.
+  destruct (lit_zero_expr a (Z.min ex 1) ex prev c r v e Hes Hex H) as [->| ->].
   - destruct Hc as [Hc|Hc]; [vm_compute in Hc; discriminate|]. vm_compute in Hc. discriminate.
   - destruct Hc as [Hc|Hc]; [vm_compute in Hc; discriminate|]. vm_compute in Hc. discriminate.
 Qed.
@@ -245,7 +248,7 @@ Proof.
   2: { inversion E; subst. destruct (kallowed_litlike m k (white_space_kind _ _ _ WS)) as [A S]. rewrite S. auto. }
   2: { discriminate. }
   (* literal / operator / quote / bracket *)
-  destruct (lit (cquote ctx) (cattr ctx) (cexpr ctx) (cexpr ctx) prev false s) as [[v n1] e] eqn:L.
+  destruct (lit (cquote ctx) (cattr ctx) (Z.min (cexpr ctx) 1) (cexpr ctx) prev false s) as [[v n1] e] eqn:L.
   destruct n1 as [|n1].
   - (* nothing consumed by lit *)
     destruct s as [|c r]. { simpl in E. discriminate. }
@@ -284,7 +287,8 @@ Proof.
     + (* inside text braces *)
       destruct R as [R1 R2]. rewrite R1 in L.
       assert (Hne : (cexpr ctx <> 0)%Z) by lia.
-      destruct (lit_zero_expr _ _ _ _ _ _ _ Hne L) as [->|]; [|contradiction].
+      assert (Hns : (Z.min (cexpr ctx) 1 <> 0)%Z) by lia.
+      destruct (lit_zero_expr _ _ _ _ _ _ _ _ Hns Hne L) as [->|]; [|contradiction].
       destruct rbrace_facts as [F1 [F2 [F3 F4]]].
       unfold operator in E. rewrite F1 in E. cbn [orelse] in E.
       unfold quote in E. rewrite F2 in E. cbn [orelse] in E.
@@ -296,9 +300,9 @@ Proof.
     destruct m; unfold rel in *; cbn [cquote cexpr].
     + exact R.
     + destruct R as [q [R1 [R2 [R3 R4]]]]. exists q. repeat split; auto.
-      rewrite R4 in L. eapply lit_expr_zero; eauto.
+      rewrite R4 in L. change (Z.min 0 1) with 0%Z in L. eapply lit_expr_zero; eauto.
     + destruct R as [R1 R2]. split; [exact R1|].
-      pose proof (lit_expr_ge _ _ _ _ _ _ _ _ _ _ (Z.le_refl _) L). lia.
+      pose proof (lit_expr_ge _ _ _ _ _ _ _ _ _ _ (Z.le_min_l _ _) L). lia.
 Qed.
 
 (* ---- the whole loop *)
